@@ -350,7 +350,7 @@ def equal(a, b):
         return to_int(a) == to_int(b)
     if isinstance(a, NoneV) or isinstance(b, NoneV):
         return z3.BoolVal(isinstance(a, NoneV) and isinstance(b, NoneV))
-    if isinstance(a, SeqV) and isinstance(b, PyListV) or isinstance(b, SeqV) and isinstance(a, PyListV):
+    if isinstance(a, SeqV) and isinstance(b, (PyListV, TupV)) or isinstance(b, SeqV) and isinstance(a, (PyListV, TupV)):
         a, b = as_seq(a), as_seq(b)
     if isinstance(a, SeqV) and isinstance(b, SeqV):
         ka = 'bytes' if a.kind == 'bytearray' else a.kind
